@@ -28,10 +28,15 @@ let popcount n = int_of_n (Bits.popcount64 n)
 let () =
   register "parse" (fun i o ->
     let s = str_of i.(2) in
+    (* a trailing rt0 / rt1: did the returned value survive its own print -> parse? *)
+    let n = Array.length o in
+    let rt = if n >= 1 && (o.(n - 1) = "rt0" || o.(n - 1) = "rt1") then Some o.(n - 1) else None in
+    let o = if rt = None then o else Array.sub o 0 (n - 1) in
     let impl = String.concat " " (Array.to_list o) in
     let m = model_parse i.(1) s in
     (if m = impl then [] else [Mismatch m])
     @ (if impl = "panic" then [Specfail ("c16_parser_aborts", "parsing " ^ i.(1) ^ " panicked")] else [])
+    @ (if rt = Some "rt0" then [Specfail ("c16_returned_value_round_trips", "the " ^ i.(1) ^ " this string parses to does not parse back from its own printed form (" ^ impl ^ ")")] else [])
     @ (if i.(1) = "obs" && Array.length o = 2 && o.(0) = "ok" then
          (match split ':' o.(1) with
           | [pk; pb] ->
@@ -44,6 +49,9 @@ let () =
     @ (if i.(1) = "hole" && Array.length o = 2 && o.(0) = "ok" && popcount (n_of_string o.(1)) <> 2 then [Specfail ("c16_hole_card_count", o.(1))] else []));
   (* print kind value | printed parsed-back *)
   register "print" (fun i o ->
+    let n = Array.length o in
+    let rt = if n >= 1 && (o.(n - 1) = "rt0" || o.(n - 1) = "rt1") then Some o.(n - 1) else None in
+    let o = if rt = None then o else Array.sub o 0 (n - 1) in
     let kind = i.(1) and v = i.(2) in
     let printed = match kind with
       | "card" -> print_card (n_of_string v)
